@@ -25,6 +25,13 @@ type Host struct {
 	Nested bool
 }
 
+// HostStruct is the type of hst, a Go struct the host binds by pointer.
+type HostStruct struct {
+	F int64
+	S string
+	A [2]int64
+}
+
 // NewHost builds a fresh environment with the probe functions.
 func NewHost() *Host {
 	h := &Host{Env: env.NewEnv()}
@@ -77,10 +84,13 @@ func NewHost() *Host {
 		}
 		return list(v.Interface(), b)
 	})
+	h.Env.Define("gset", func(p *int64, v int64) { *p = v })
 	h.Env.Define("hnil", map[string]interface{}(nil))
 	h.Env.Define("hnilm", map[interface{}]interface{}(nil))
 	h.Env.Define("harr", [3]int64{5, 6, 7})
 	h.Env.Define("hnilptrs", []*int64{nil, nil, nil})
+	// hst: a pointer to a Go struct (fields are assignable through it)
+	h.Env.Define("hst", &HostStruct{F: 7, S: "g", A: [2]int64{1, 2}})
 	h.Env.Define("gch", func(v interface{}) interface{} {
 		ch := make(chan interface{}, 1)
 		ch <- v
@@ -101,6 +111,27 @@ func NewHost() *Host {
 			out = append(out, r)
 		}
 		return out
+	})
+	// pd(tag, args...) logs every argument it received (see gen_deferargs.go); pd3 is the same probe
+	// with a fixed parameter list, pdi the same with typed parameters and a typed variadic tail
+	pd := func(tag string, args ...interface{}) interface{} {
+		parts := []string{RenderGo(tag)}
+		for _, a := range args {
+			parts = append(parts, RenderGo(a))
+		}
+		h.mu.Lock()
+		h.Trace = append(h.Trace, "pd "+strings.Join(parts, " "))
+		h.mu.Unlock()
+		return nil
+	}
+	h.Env.Define("pd", pd)
+	h.Env.Define("pd3", func(tag string, a, b interface{}) interface{} { return pd(tag, a, b) })
+	h.Env.Define("pdi", func(tag string, a int64, rest ...int64) interface{} {
+		args := []interface{}{a}
+		for _, r := range rest {
+			args = append(args, r)
+		}
+		return pd(tag, args...)
 	})
 	return h
 }
